@@ -72,8 +72,16 @@ class CompleteTaskHandler(StabilizeHandler[CompleteTask]):
         """Inner handle logic to be retried."""
 
         def on_task(stage: StageExecution, task: TaskExecution) -> None:
-            # Idempotency check - only complete tasks that are RUNNING
-            if task.status != WorkflowStatus.RUNNING:
+            # Idempotency check - only complete tasks that are RUNNING. The one
+            # exception is a disabled SkippableTask: StartTask marks it SKIPPED
+            # (it never runs) and queues CompleteTask(SKIPPED) to move the stage
+            # on; end_time tells that hand-over from a redelivery of it.
+            skipped_by_start_task = (
+                message.status == WorkflowStatus.SKIPPED
+                and task.status == WorkflowStatus.SKIPPED
+                and task.end_time is None
+            )
+            if task.status != WorkflowStatus.RUNNING and not skipped_by_start_task:
                 logger.debug(
                     "Ignoring CompleteTask for %s (%s) - already %s",
                     task.name,
